@@ -226,7 +226,8 @@ for fmt in ("xyz", "pdb", "mol2", "sdf"):
             continue
         if not any(t.replace(".", "").replace("-", "").isdigit() and "." in t for t in toks): continue
         cases += 1
-        l2 = list(lines); l2[ln] = l2[ln].replace(next(t for t in toks if "." in t and t.replace(".", "").replace("-", "").isdigit()), "x.yz", 1)
+        tok = next(t for t in toks if "." in t and t.replace(".", "").replace("-", "").isdigit())
+        l2 = list(lines); l2[ln] = l2[ln].replace(tok, tok[:-1] + "x", 1)  # same width: the other columns stay where they are
         with open(fn, "w") as fh: fh.write("".join(l2))
         try:
             got = list(load_many(fn))
